@@ -18,7 +18,8 @@ namespace Saltpack.Proofs.SDW
 open Saltpack Saltpack.Msgpack Saltpack.SpecDecode Saltpack.Proofs
 open Saltpack.Spec hiding encode
 
-/-- the chunk rules of the specifications on a plan, packet index `i` onwards:
+/-- the chunk rules (`SpecDecode.chunkRule`: specification + the receivers'
+    empty-chunk convention, Go `checkChunkState`) on a plan, packet index `i` onwards:
     at most 1 MiB per chunk; V1: exactly the last chunk is empty; V2: exactly the
     last chunk is flagged final, an empty chunk only as the sole chunk -/
 def PlanOK (layout : Nat) : Nat → List (Bytes × Bool) → Prop
